@@ -1,4 +1,5 @@
 import KoordVerif.Model.C04
+import KoordVerif.Proofs.C04ExtConc
 import KoordVerif.Generated.C04
 /-
 Tie lemmas for C04: facts regenerated from /repo's current source on every run.  They pin
@@ -9,7 +10,12 @@ Tie lemmas for C04: facts regenerated from /repo's current source on every run. 
     one isGangValidForPermit per gang, and no lock of its own (so `permit_snapshot` is the honest
     statement under real interleavings);
 (3) the informer wiring of NewPodGroupManager (the harness builds GangCache + PodGroupManager directly);
-(4) the guard of setChild's PendingChildren insertion (fix bbde960).
+(4) the guard of setChild's PendingChildren insertion (fix bbde960);
+(5) the lock structure of the Gang methods the small-step model treats as ONE critical section each
+    (one gang.lock.Lock/RLock, one deferred Unlock, no explicit Unlock, no child-set access before
+    the Lock), and with it `setChild_atomic_safe` instantiated at the extracted number of sections;
+(6) the test guarding the "gang is a group of its own" fallback on both initialisation paths
+    (`len(groupSlice) == 0`, the model's `groupOrSelf`).
 -/
 namespace KoordVerif.C04
 open KoordVerif.Generated
@@ -40,5 +46,24 @@ theorem tie_informer_wiring :
 
 theorem tie_setChild_guard :
     C04.setChildPendingGuard = ["NodeName", "WaitingForBindChildren", "BoundChildren"] := by decide
+
+theorem tie_gang_methods_one_section :
+    C04.gangLockShape =
+      [("setChild", 1, 1, 0, false), ("addAssumedPod", 1, 1, 0, false), ("delAssumedPod", 1, 1, 0, false),
+       ("addBoundPod", 1, 1, 0, false), ("deletePod", 1, 1, 0, false), ("isGangValidForPermit", 1, 1, 0, false),
+       ("GetGangSummary", 1, 1, 0, false)] := by decide
+
+theorem tie_group_fallback_is_len_test :
+    C04.groupFallbackTest = [("tryInitByPodConfig", "len==0"), ("tryInitByPodGroup", "len==0")] := by decide
+
+theorem tie_setChild_sections : C04.setChildSections = 1 := by decide
+
+/-- `setChild_atomic_safe` for the number of critical sections setChild has in the CURRENT source -/
+theorem tie_setChild_atomic_safe (g : PodSets) (progs : List (List Call)) (sched : List Nat)
+    (hg : g.Disj) (hc : (start C04.setChildSections g progs).contract sched = true) :
+    ((start C04.setChildSections g progs).run sched).g.Disj := by
+  have e : C04.setChildSections = 1 := by decide
+  rw [e] at hc ⊢
+  exact run_whole_disj _ sched (start_one_allWhole g progs) hg hc
 
 end KoordVerif.C04
